@@ -72,6 +72,26 @@ def seeded_table():
     return "\n".join(rows) + "\n\n%d seeded changes; %d caught by the target property's check, %d of them with a concrete failing input as replay.\n" % (n, caught, concrete)
 
 
+def harmless_table():
+    rows = ["| harmless change | kind | largest output difference seen by its author | test-suite / demo with change | ./check verdict |",
+            "|---|---|---|---|---|"]
+    n = ok = 0
+    for d in sorted(glob.glob(os.path.join(VERIF, "harmless", "*", "meta.json"))):
+        m = json.load(open(d))
+        name = os.path.basename(os.path.dirname(d))
+        res = m.get("check_results", {})
+        v = "; ".join("%s exit %d%s" % (k, r["exit"], "" if r["exit"] == 0 else
+                                       (" (no-failing-input-found)" if any("no-failing-input-found" in l for l in r["lines"]) else " (names an input)"))
+                      for k, r in res.items()) or "not run"
+        n += 1
+        ok += bool(res) and all(r["exit"] == 0 for r in res.values())
+        ran = m.get("what_i_ran", {})
+        rows.append("| %s — %s | %s | %s | %s / demo %s→%s | %s |" % (
+            name, str(m.get("title", ""))[:110].replace("|", "/"), m.get("kind", "?"), m.get("max_output_difference", "?"),
+            "passes" if ran.get("test_suite_passes_with_change") else "?", ran.get("demo_unchanged_exit"), ran.get("demo_changed_exit"), v))
+    return "\n".join(rows) + "\n\n%d harmless changes; %d pass the target property's quick check (exit 0, no VIOLATION line).\n" % (n, ok)
+
+
 def main():
     out = [rd("notes/design_parts/s1_3.md"), rd("notes/design_parts/s2_asbuilt.md"),
            "\n---------------------------------------------------------------------------------------------\n\n## 0. Status at a glance (generated from evidence/ and known_findings.json)\n\n",
@@ -91,6 +111,7 @@ def main():
                "recorded input still fails in the recorded way.  (Generated from `known_findings.json`.)\n\n" + findings_table())
     out.append("\n" + rd("notes/design_parts/s6_notes.md") if os.path.exists(os.path.join(VERIF, "notes/design_parts/s6_notes.md")) else "")
     out.append("\n---------------------------------------------------------------------------------------------\n\n" + rd("notes/design_parts/s7.md"))
+    out.append("\n#### Harmless changes: final pass (generated from `harmless/*/meta.json`)\n\n" + harmless_table())
     out.append("\n---------------------------------------------------------------------------------------------\n\n"
                "## 8. Seeded property-breaking changes: catch matrix and what was strengthened\n\n" + rd("notes/design_parts/s8_intro.md")
                + "\n" + seeded_table())
